@@ -525,4 +525,152 @@ theorem inv_runLoop (g : Graph) (w : Nat) (hH : Homog g) (fuel : Nat) (s : State
     · next s1 e heq => rw [heq] at hI1; exact hI1
     · next s1 e what heq => rw [heq] at hI1; exact inv_le g s1 _ hI1 (le_setWd _ _ _)
 
+/-! ## the second half of `run_test_node`
+
+`resumeTest` is factored (definitionally, `resumeTest_eq` is `rfl`; the model itself is unchanged) into the stub's
+report, the replacement of the placeholder by the found result, and the continuation. -/
+
+/-- first block of the second half of `run_test_node`: the stub's report -/
+def reportOutcome (g : Graph) (s : State) (w n : Nat) (phase : Phase) (uid : String) (wait : Nat) (out : Outcome) :
+    State × List Event :=
+  let wid := (g.worker w).id
+  let name := if phase == .pre then (s.wd w).preName else (g.node n).name
+  if wait == 0 then
+    match out.status with
+    | some st =>
+      let s := { s with jobResults := s.jobResults ++ [(name, uid, st, out.dur)] }
+      let s := if (st == "PASS" || st == "WARN") && phase != .pre then produce g s n w else s
+      (s, [Event.finish wid (clsName g n phase) uid st])
+    | none => (s, [Event.finish wid (clsName g n phase) uid "NONE"])
+  else (s, [])
+
+/-- the found result replaces the placeholder; returns the state and whether the status counts as success -/
+def recordResult (s : State) (w n : Nat) (phase : Phase) (name uid : String) (tag : Nat) (st0 : String) (dur : Nat) :
+    State × Bool :=
+  let prior := if phase == .pre then (s.wd w).preResults else (s.nd n).results
+  let maxAllowed := ((prior.filter (·.status == "PASS")).map (·.dur)).foldl max 0
+  let maxAllowed := if (prior.filter (·.status == "PASS")).isEmpty then dur else maxAllowed
+  let st := if st0 == "PASS" && 4 * dur > 5 * maxAllowed then "WARN" else st0
+  let s := if st != st0 then
+      { s with jobResults := s.jobResults.map (fun r => if r.1 == name && r.2.1 == uid then (r.1, r.2.1, st, r.2.2.2) else r) }
+    else s
+  let res : Result := { name := name, status := st, uid := uid, dur := dur }
+  let s :=
+    if phase == .pre then
+      s.setWd w (fun d => { d with preResults := (d.preResults ++ [res]).filter (fun r => !(r.status == "UNKNOWN" && r.tag == tag)) })
+    else
+      s.setNd n (fun d => { d with results := (d.results ++ [res]).filter (fun r => !(r.status == "UNKNOWN" && r.tag == tag)) })
+  (s, !(lower st == "error" || lower st == "fail"))
+
+theorem resumeTest_eq (g : Graph) (s : State) (w n : Nat) (phase : Phase) (dir : Dir) (uid : String) (tag wait : Nat)
+    (out : Outcome) (fuel : Nat) :
+    resumeTest g s w n phase dir uid tag wait out fuel =
+      (match (reportOutcome g s w n phase uid wait out).1.jobResults.find?
+          (fun r => r.1 == (if phase == .pre then (s.wd w).preName else (g.node n).name) && r.2.1 == uid) with
+       | some (_, _, st0, dur) =>
+         resumeTest.continueAfter g w n phase dir fuel
+           (recordResult (reportOutcome g s w n phase uid wait out).1 w n phase
+             (if phase == .pre then (s.wd w).preName else (g.node n).name) uid tag st0 dur).1
+           (recordResult (reportOutcome g s w n phase uid wait out).1 w n phase
+             (if phase == .pre then (s.wd w).preName else (g.node n).name) uid tag st0 dur).2
+           (reportOutcome g s w n phase uid wait out).2
+       | none =>
+         if wait + 1 < 10 then
+           ((reportOutcome g s w n phase uid wait out).1.setWd w (fun d => { d with pc := .test n phase dir uid tag (wait + 1) }),
+            (reportOutcome g s w n phase uid wait out).2 ++ [Event.sleep (g.worker w).id 3000])
+         else if wait + 1 == 10 then
+           ((reportOutcome g s w n phase uid wait out).1.setWd w (fun d => { d with pc := .test n phase dir uid tag (wait + 1) }),
+            (reportOutcome g s w n phase uid wait out).2 ++ [Event.sleep (g.worker w).id 3000])
+         else resumeTest.continueAfter g w n phase dir fuel (reportOutcome g s w n phase uid wait out).1 false
+           (reportOutcome g s w n phase uid wait out).2) := rfl
+
+theorem le_reportOutcome (g : Graph) (s : State) (w n : Nat) (phase : Phase) (uid : String) (wait : Nat) (out : Outcome) :
+    Le s (reportOutcome g s w n phase uid wait out).1 := by
+  unfold reportOutcome
+  dsimp only
+  split
+  · split
+    · split <;> exact Le.of_nd_eq (fun _ => rfl)
+    · exact Le.refl s
+  · exact Le.refl s
+
+theorem le_recordResult (s : State) (w n : Nat) (phase : Phase) (name uid : String) (tag : Nat) (st0 : String) (dur : Nat) :
+    Le s (recordResult s w n phase name uid tag st0 dur).1 := by
+  unfold recordResult
+  dsimp only
+  have hX : ∀ (c : Bool) (jr : List (String × String × String × Nat)),
+      Le s (if c = true then { s with jobResults := jr } else s) := by
+    intro c jr
+    cases c
+    · exact Le.refl s
+    · exact Le.of_nd_eq (fun _ => rfl)
+  by_cases hp : (phase == Phase.pre) = true
+  · simp only [hp, if_true]
+    exact (hX _ _).trans (le_setWd _ _ _)
+  · simp only [hp, Bool.false_eq_true, if_false]
+    exact (hX _ _).trans (Le.setNd _ n _ (fun _ => ⟨Or.inl rfl, Nat.le_refl _⟩))
+
+theorem inv_continueAfter (g : Graph) (w n : Nat) (phase : Phase) (dir : Dir) (fuel : Nat) (s : State) (ok : Bool)
+    (evs : List Event) (hH : Homog g) (hI : Inv g s) :
+    Inv g (resumeTest.continueAfter g w n phase dir fuel s ok evs).1 := by
+  unfold resumeTest.continueAfter
+  dsimp only
+  split
+  · exact inv_startTest g s n w .main dir hI
+  · have hI1 : Inv g (if (phase == Phase.pre) = true then
+          s.setNd n (fun d => { d with results := d.results ++ (s.wd w).preResults.drop d.results.length })
+        else s) := by
+      split
+      · exact inv_le g s _ hI (Le.setNd _ n _ (fun _ => ⟨Or.inl rfl, Nat.le_refl _⟩))
+      · exact hI
+    have hI2 := inv_afterTraverse g _ w n ((s.wd w).path.getD ((s.wd w).path.length - 2) 0) dir hH
+      (inv_le g _ _ hI1 (le_finishTraverse _ n w))
+    split
+    · next s1 e2 what heq => rw [heq] at hI2; exact inv_le g s1 _ hI2 (le_setWd _ _ _)
+    · next s1 e2 f _ heq => rw [heq] at hI2; exact inv_runLoop g w hH fuel s1 _ hI2
+
+theorem inv_resumeTest (g : Graph) (s : State) (w n : Nat) (phase : Phase) (dir : Dir) (uid : String) (tag wait : Nat)
+    (out : Outcome) (fuel : Nat) (hH : Homog g) (hI : Inv g s) :
+    Inv g (resumeTest g s w n phase dir uid tag wait out fuel).1 := by
+  rw [resumeTest_eq]
+  have hI1 := inv_le g s _ hI (le_reportOutcome g s w n phase uid wait out)
+  split
+  · next st0 dur _ =>
+    exact inv_continueAfter g w n phase dir fuel _ _ _ hH (inv_le g _ _ hI1 (le_recordResult _ w n phase _ uid tag st0 dur))
+  · split
+    · exact inv_le g _ _ hI1 (le_setWd _ _ _)
+    · split
+      · exact inv_le g _ _ hI1 (le_setWd _ _ _)
+      · exact inv_continueAfter g w n phase dir fuel _ _ _ hH hI1
+
+/-- one scheduler step: worker `w` runs from its suspension point to the next one -/
+theorem inv_resume (g : Graph) (s : State) (w : Nat) (out : Outcome) (fuel : Nat) (hH : Homog g) (hI : Inv g s) :
+    Inv g (resume g s w out fuel).1 := by
+  unfold resume
+  split
+  · exact inv_runLoop g w hH fuel s [] hI
+  · exact inv_runLoop g w hH fuel s [] hI
+  · exact inv_resumeTest g s w _ _ _ _ _ _ out fuel hH hI
+  · exact hI
+  · exact hI
+
+theorem sharedStarted_initState (g : Graph) (ncls : Nat) (store : List (String × List (String × String))) (n : Nat) :
+    sharedStarted g (initState g ncls store) n = [] := by
+  have h : ∀ i, ((initState g ncls store).nd i).started = none := by
+    intro i
+    unfold initState State.nd
+    simp only [List.getD_eq_getElem?_getD, List.getElem?_map]
+    cases g.nodes[i]? <;> rfl
+  unfold sharedStarted
+  have : (g.copies n).filterMap (fun i => ((initState g ncls store).nd i).started) = [] := by
+    simp [List.filterMap_eq_nil_iff, h]
+  rw [this]; rfl
+
+theorem inv_initState (g : Graph) (ncls : Nat) (store : List (String × List (String × String))) :
+    Inv g (initState g ncls store) := by
+  intro n _ _ w
+  unfold scopedCount
+  rw [sharedStarted_initState]
+  exact Nat.zero_le _
+
 end I2N.Trav
